@@ -402,6 +402,10 @@ class VectorDot(Expr):  # type: ignore[misc]
     frame is reversed.
     """
 
+    # The dot product is a scalar. Without this flag SymPy does not distribute `-1` over a sum of
+    # dot products, and `abs(-dot(a, b) - dot(a, c))` recurses infinitely.
+    is_commutative = True
+
     @property
     def lhs(self) -> VectorExpr:
         return self.args[0]  # type: ignore[no-any-return]
